@@ -290,6 +290,21 @@ pub fn op_cases() -> Vec<OpCase> {
                 out.push(OpCase { name: "sqrt".into(), ty: t, params: vec![t], ret: st.name.into(), body: "core::num::traits::Sqrt::sqrt(a)".into(), model: Box::new(move |v| Expected::Value(st.val(&v[0].sqrt()))) });
             }
         }
+        if is_int {
+            // Small trait surface that is easy to forget: Zero / One predicates.
+            let bool_val = |b: bool| Val::Enum { idx: b as usize, val: Box::new(Val::Struct(vec![])) };
+            out.push(OpCase { name: "is_zero".into(), ty: t, params: vec![t], ret: "bool".into(), body: "core::num::traits::Zero::is_zero(@a)".into(), model: Box::new(move |v| Expected::Value(bool_val(v[0].is_zero()))) });
+            out.push(OpCase { name: "is_one".into(), ty: t, params: vec![t], ret: "bool".into(), body: "core::num::traits::One::is_one(@a)".into(), model: Box::new(move |v| Expected::Value(bool_val(v[0].is_one()))) });
+        }
+        if let Some(w) = t.wide() {
+            if t.kind == TyKind::Unsigned {
+                let wt = Ty::by_name(w).unwrap();
+                out.push(OpCase { name: "wide_square".into(), ty: t, params: vec![t], ret: w.into(), body: "core::num::traits::WideSquare::wide_square(a)".into(), model: Box::new(move |v| Expected::Value(wt.val(&(&v[0] * &v[0])))) });
+            }
+        }
+        if t.kind == TyKind::U256 {
+            out.push(OpCase { name: "wide_square".into(), ty: t, params: vec![t], ret: "core::integer::u512".into(), body: "core::num::traits::WideSquare::wide_square(a)".into(), model: Box::new(|v| Expected::Value(vu512(&(&v[0] * &v[0])))) });
+        }
         if let Some(w) = t.wide() {
             let wt = Ty::by_name(w).unwrap();
             out.push(OpCase { name: "wide_mul".into(), ty: t, params: vec![t, t], ret: w.into(), body: "core::num::traits::WideMul::wide_mul(a, b)".into(), model: Box::new(move |v| Expected::Value(wt.val(&(&v[0] * &v[1])))) });
